@@ -1,17 +1,29 @@
 (** C09 -- in a uniform plasma the wall pressure equals the free-energy difference, and the
     field gradient used in the pressure integral is the exact derivative of the profile.
 
-    Every statement is about the model GENERATED from src/WallGo/equationOfMotion.py on this
-    run (module GenC09.EomProfile):
+    Generated from src/WallGo/equationOfMotion.py on this run (module GenC09.EomProfile):
       - [wallProfile]       : EOM.wallProfile, one field (tanh ansatz and its gradient);
+      - [updateGrid1/2]     : EOM._updateGrid for one / two fields;
       - [pressure_integrand]: the def-use slice of EOM._intermediatePressureResults that is
         handed to Polynomial.integrate, with a VERSION on every use of the wall parameters
-        and of the grid ([wid v i], [off v i], [xi e g c], [dzdchi e g c]);
-        [returned_wall_version] / [final_grid_version] are the versions the caller gets back.
-    External (hypotheses, never axioms): the potential V with continuous gradient (the code
-    takes the gradient by finite differences, C19/C08), the grid map chi -> z and the fact
-    that getCompactificationDerivatives is its derivative (proved for Grid3Scales by C17,
-    validated numerically here), and the Gauss-Lobatto quadrature error (validated). *)
+        ([wid v i], [off v i]), of the grid ([xi e g c], [dzdchi e g c]: every call through
+        self that is not known to leave the grid alone starts a new version) and of the
+        Boltzmann results ([offEq e b ...]; b changes only under [includeOffEq e]);
+        [returned_wall_version] / [final_grid_version] are what the caller gets back.
+    Two kinds of theorems:
+      - CODE PATH ([code_pressure_integrand_*], [quadrature_on_the_grid_of_the_profile],
+        [grid_remap_resolves_the_wall], [dPhidz_is_derivative], [profile_connects_the_phases]):
+        statements about the generated definitions;
+      - CALCULUS over the generated profile ([total_derivative_one_field],
+        [pressure_is_free_energy_difference_*], [temperature_independent_field_part_*]): the
+        integrand dV(profile) * gradient is written in the statement; only [wallProfile] in
+        them comes from the source.
+    External (hypotheses, never axioms): the potential V with continuous gradient and the
+    fact that derivField is that gradient (finite differences, C19/C08), np.sum(axis=1) = sum
+    over fields, zero incoming Boltzmann results, the grid map chi -> z with
+    getCompactificationDerivatives as its derivative (proved for Grid3Scales by C17, validated
+    numerically here) and its limits at chi = -1, +1.  The quadrature error is measured by the
+    harness, not assumed. *)
 Set Warnings "-ambiguous-paths".
 From Coq Require Import Reals Lra.
 From Coquelicot Require Import Coquelicot.
@@ -38,8 +50,13 @@ Proof. unfold wallProfile, Phi. cbv zeta. cbn [fst]. norm_arg z w d. field. Qed.
 Lemma gradient_is_dPhi pe z lo hi w d : w <> 0 ->
   snd (wallProfile pe z lo hi w d) = dPhi lo hi w d z.
 Proof.
-  intros Hw. unfold wallProfile, dPhi. cbv zeta. cbn [snd]. norm_arg z w d.
-  generalize (cosh_neq_0 (z / w + d)); intro Hc. field. split; assumption.
+  intros Hw. unfold wallProfile. cbv zeta. cbn [snd]. norm_arg z w d.
+  generalize (cosh_neq_0 (z / w + d)); intro Hc.
+  (* the source may write sech^2 as 1/cosh^2 or as 1 - tanh^2 (Lib: inv_cosh2) *)
+  first [ unfold dPhi; field; split; assumption
+        | rewrite dPhi_alt by exact Hw; field; exact Hw
+        | rewrite dPhi_alt by exact Hw; rewrite <- !inv_cosh2; field; split; assumption
+        | unfold dPhi; rewrite !inv_cosh2; field; exact Hw ].
 Qed.
 
 Section Profile.
@@ -82,7 +99,11 @@ Variable dV : R -> R.
 (* one field; no out-of-equilibrium particles; uniform temperature or a field gradient that
    does not depend on temperature: along the temperature profile the gradient is dV *)
 Hypothesis Hsum : forall f, fieldSum e f = f 0%nat.
-Hypothesis Hoff : forall F c i, offEq e F c i = 0.
+(* premise of the property, as the code realises it: includeOffEq is off and the Boltzmann
+   results handed in by the caller are zero (wallPressure initialises them to zero).  The
+   generated term selects the Boltzmann-results version through [includeOffEq e]. *)
+Hypothesis Hinc : includeOffEq e = false.
+Hypothesis Hoff : forall F c i, offEq e incoming_boltzmann_version F c i = 0.
 Hypothesis HdV : forall F c, dVdPhi e F (Tprof e c) 0%nat = dV (F 0%nat).
 
 Let k := returned_wall_version.
@@ -96,7 +117,8 @@ Lemma integrand_1 c :
   dV (Phi (lo 0%nat) (hi 0%nat) w d (xi e g c)) * dPhi (lo 0%nat) (hi 0%nat) w d (xi e g c)
   * (- dzdchi e g c).
 Proof.
-  unfold pressure_integrand. rewrite Hsum. rewrite HdV. rewrite Hoff.
+  unfold pressure_integrand. rewrite Hsum. rewrite HdV. rewrite Hinc. cbv iota.
+  pose proof Hoff as Hoff0. unfold incoming_boltzmann_version in Hoff0. rewrite Hoff0.
   rewrite profile_is_Phi.
   unfold w, d, k, g, returned_wall_version, final_grid_version in *.
   rewrite gradient_is_dPhi by exact Hw.
@@ -112,7 +134,8 @@ Variables lo hi : nat -> R.
 Variables wid off : nat -> nat -> R.
 Variables dV1 dV2 : R -> R -> R.
 Hypothesis Hsum : forall f, fieldSum e f = f 0%nat + f 1%nat.
-Hypothesis Hoff : forall F c i, offEq e F c i = 0.
+Hypothesis Hinc : includeOffEq e = false.
+Hypothesis Hoff : forall F c i, offEq e incoming_boltzmann_version F c i = 0.
 Hypothesis HdV1 : forall F c, dVdPhi e F (Tprof e c) 0%nat = dV1 (F 0%nat) (F 1%nat).
 Hypothesis HdV2 : forall F c, dVdPhi e F (Tprof e c) 1%nat = dV2 (F 0%nat) (F 1%nat).
 
@@ -130,7 +153,8 @@ Lemma integrand_2 c :
   (dV1 (p0 (xi e g c)) (p1 (xi e g c)) * q0 (xi e g c) +
    dV2 (p0 (xi e g c)) (p1 (xi e g c)) * q1 (xi e g c)) * (- dzdchi e g c).
 Proof.
-  unfold pressure_integrand. rewrite Hsum. rewrite HdV1, HdV2. rewrite !Hoff.
+  unfold pressure_integrand. rewrite Hsum. rewrite HdV1, HdV2. rewrite Hinc. cbv iota.
+  pose proof Hoff as Hoff0. unfold incoming_boltzmann_version in Hoff0. rewrite !Hoff0.
   rewrite !profile_is_Phi.
   unfold p0, p1, q0, q1, k, g, returned_wall_version, final_grid_version in *.
   rewrite (gradient_is_dPhi pe _ (lo 0%nat)) by exact Hw0.
@@ -148,21 +172,44 @@ Hypothesis Hr : 0 < ratioPointsWall e.
 Notation s := (smoothing e).
 Notation r := (ratioPointsWall e).
 
-Lemma tail_facts (L X : R) : 0 < L ->
-  let t := Rmax X (L * (1 / 2 + 21 / 20 * s) / r) in
+(* whatever the floor [q] of the tail length is, as long as it exceeds the Grid3Scales bound *)
+Lemma tail_facts (L X q : R) : 0 < L -> L * (1 / 2 + s) / r < q ->
+  let t := Rmax X q in
   L * (1 / 2 + s) / r < t /\ 0 < 2 * r * t - L * (1 + s).
 Proof.
-  intros HL t.
-  assert (Ht : L * (1 / 2 + 21 / 20 * s) / r <= t) by apply Rmax_r.
-  assert (Hq : L * (1 / 2 + s) / r < L * (1 / 2 + 21 / 20 * s) / r).
-  { apply Rmult_lt_compat_r; [apply Rinv_0_lt_compat; exact Hr|nra]. }
+  intros HL Hq t.
+  assert (Ht : q <= t) by apply Rmax_r.
   split; [lra|].
-  assert (H2 : 2 * r * (L * (1 / 2 + 21 / 20 * s) / r) <= 2 * r * t).
-  { apply Rmult_le_compat_l; [lra|exact Ht]. }
-  replace (2 * r * (L * (1 / 2 + 21 / 20 * s) / r)) with (L * (1 + 21 / 10 * s)) in H2
-    by (field; lra).
+  assert (H2 : 2 * r * (L * (1 / 2 + s) / r) < 2 * r * q).
+  { apply Rmult_lt_compat_l; [lra|exact Hq]. }
+  replace (2 * r * (L * (1 / 2 + s) / r)) with (L * (1 + 2 * s)) in H2 by (field; lra).
+  assert (H3 : 2 * r * q <= 2 * r * t) by (apply Rmult_le_compat_l; [lra|exact Ht]).
   nra.
 Qed.
+
+Lemma tail_facts_l (L X q : R) : 0 < L -> L * (1 / 2 + s) / r < q ->
+  let t := Rmax q X in
+  L * (1 / 2 + s) / r < t /\ 0 < 2 * r * t - L * (1 + s).
+Proof. intros HL Hq. rewrite Rmax_comm. apply tail_facts; assumption. Qed.
+
+(* the floor in the source: L * (1/2 + k s) / r with any literal k > 1 *)
+Ltac floor_ok HL :=
+  unfold Rdiv; apply Rmult_lt_compat_r; [apply Rinv_0_lt_compat; exact Hr|];
+  generalize Hs HL; clear; intros; nra.
+
+Ltac tails L HL :=
+  repeat match goal with
+  | |- context [Rmax ?X ?q] =>
+      lazymatch goal with H : _ < Rmax X q |- _ => fail | _ => idtac end;
+      first [ let H := fresh "T" in
+              assert (H : L * (1 / 2 + s) / r < q) by floor_ok HL;
+              let H' := fresh "T" in
+              pose proof (tail_facts L X q HL H) as H'; cbv zeta in H'; destruct H' as [? ?]
+            | let H := fresh "T" in
+              assert (H : L * (1 / 2 + s) / r < X) by floor_ok HL;
+              let H' := fresh "T" in
+              pose proof (tail_facts_l L q X HL H) as H'; cbv zeta in H'; destruct H' as [? ?] ]
+  end.
 
 Variables w0 o0 w1 o1 v : R.
 Hypothesis Hw0 : 0 < w0.
@@ -188,14 +235,9 @@ Proof.
   assert (B0 : B <= (-1 - o0) * w0) by apply Rmin_l.
   assert (B1 : B <= (-1 - o1) * w1) by apply Rmin_r.
   assert (HL : 0 < (A - B) / 2) by nra.
-  repeat match goal with
-  | |- context [Rmax ?X ((A - B) / 2 * ?k / r)] =>
-      let H := fresh "T" in
-      pose proof (tail_facts ((A - B) / 2) X HL) as H; cbv zeta in H;
-      let t := fresh "t" in set (t := Rmax X ((A - B) / 2 * k / r)) in *
-  end.
+  tails ((A - B) / 2) HL.
   repeat split; try lra.
-  intros H0. subst t t0. rewrite H0. rewrite !Rmult_0_r. reflexivity.
+  intros Hz. rewrite Hz. rewrite !Rmult_0_r. reflexivity.
 Qed.
 
 Lemma updateGrid1_ok :
@@ -211,14 +253,9 @@ Proof.
   unfold updateGrid1. cbv zeta. cbn [fst snd].
   assert (EL : ((1 - o0) * w0 - (-1 - o0) * w0) / 2 = w0) by field.
   rewrite !EL.
-  repeat match goal with
-  | |- context [Rmax ?X (w0 * ?k / r)] =>
-      let H := fresh "T" in
-      pose proof (tail_facts w0 X Hw0) as H; cbv zeta in H;
-      let t := fresh "t" in set (t := Rmax X (w0 * k / r)) in *
-  end.
+  tails w0 Hw0.
   repeat split; try lra.
-  intros H0. subst t t0. rewrite H0. rewrite !Rmult_0_r. reflexivity.
+  intros Hz. rewrite Hz. rewrite !Rmult_0_r. reflexivity.
 Qed.
 End Grid.
 
@@ -335,7 +372,8 @@ Print Assumptions temperature_independent_field_part_any_T_profile.
 Theorem code_pressure_integrand_one_field :
   forall pe e lo hi wid off (V dV : R -> R),
   (forall f, fieldSum e f = f 0%nat) ->
-  (forall F c i, offEq e F c i = 0) ->
+  includeOffEq e = false ->
+  (forall F c i, offEq e incoming_boltzmann_version F c i = 0) ->
   (forall F c, dVdPhi e F (Tprof e c) 0%nat = dV (F 0%nat)) ->
   (forall x, is_derive V x (dV x)) -> (forall x, continuous dV x) ->
   let k := returned_wall_version in let g := final_grid_version in
@@ -351,7 +389,7 @@ Theorem code_pressure_integrand_one_field :
    filterlim (fun ab : R * R => V (phi (xi e g (fst ab))) - V (phi (xi e g (snd ab))))
      (filter_prod (at_right (-1)) (at_left 1)) (locally (V (lo 0%nat) - V (hi 0%nat)))).
 Proof.
-  intros pe e lo hi wid off V dV Hsum Hoff HdVe HV HdV k g phi Hw.
+  intros pe e lo hi wid off V dV Hsum Hinc Hoff HdVe HV HdV k g phi Hw.
   assert (Hw' : wid k 0%nat <> 0) by lra.
   split.
   - intros ca cb HJ.
@@ -359,7 +397,7 @@ Proof.
       (f := fun c => dV (Phi (lo 0%nat) (hi 0%nat) (wid k 0%nat) (off k 0%nat) (xi e g c))
                      * dPhi (lo 0%nat) (hi 0%nat) (wid k 0%nat) (off k 0%nat) (xi e g c)
                      * (- dzdchi e g c)).
-    { intros c _. symmetry. apply (integrand_1 pe e lo hi wid off dV Hsum Hoff HdVe Hw'). }
+    { intros c _. symmetry. apply (integrand_1 pe e lo hi wid off dV Hsum Hinc Hoff HdVe Hw'). }
     unfold phi. rewrite !profile_is_Phi.
     apply (total_derivative_compact_1 V dV HV HdV
              (Phi (lo 0%nat) (hi 0%nat) (wid k 0%nat) (off k 0%nat))
@@ -378,11 +416,12 @@ Proof.
 Qed.
 Print Assumptions code_pressure_integrand_one_field.
 
-(** the same for two fields and any differentiable potential *)
+(** the same for two fields and any differentiable potential, including the limit *)
 Theorem code_pressure_integrand_two_fields :
   forall pe e lo hi wid off (V dV1 dV2 : R -> R -> R),
   (forall f, fieldSum e f = f 0%nat + f 1%nat) ->
-  (forall F c i, offEq e F c i = 0) ->
+  includeOffEq e = false ->
+  (forall F c i, offEq e incoming_boltzmann_version F c i = 0) ->
   (forall F c, dVdPhi e F (Tprof e c) 0%nat = dV1 (F 0%nat) (F 1%nat)) ->
   (forall F c, dVdPhi e F (Tprof e c) 1%nat = dV2 (F 0%nat) (F 1%nat)) ->
   (forall x y, differentiable_pt_lim V x y (dV1 x y) (dV2 x y)) ->
@@ -391,37 +430,55 @@ Theorem code_pressure_integrand_two_fields :
   let k := returned_wall_version in let g := final_grid_version in
   let phi0 := fun z => fst (wallProfile pe z (lo 0%nat) (hi 0%nat) (wid k 0%nat) (off k 0%nat)) in
   let phi1 := fun z => fst (wallProfile pe z (lo 1%nat) (hi 1%nat) (wid k 1%nat) (off k 1%nat)) in
-  wid k 0%nat <> 0 -> wid k 1%nat <> 0 ->
-  forall ca cb,
+  0 < wid k 0%nat -> 0 < wid k 1%nat ->
+  (forall ca cb,
     (forall c, Rmin ca cb <= c <= Rmax ca cb ->
                is_derive (xi e g) c (dzdchi e g c) /\ continuous (dzdchi e g) c) ->
     is_RInt (pressure_integrand pe e lo hi wid off) ca cb
-            (V (phi0 (xi e g ca)) (phi1 (xi e g ca)) - V (phi0 (xi e g cb)) (phi1 (xi e g cb))).
+            (V (phi0 (xi e g ca)) (phi1 (xi e g ca)) - V (phi0 (xi e g cb)) (phi1 (xi e g cb)))) /\
+  (filterlim (xi e g) (at_right (-1)) (Rbar_locally m_infty) ->
+   filterlim (xi e g) (at_left 1) (Rbar_locally p_infty) ->
+   filterlim (fun ab : R * R => V (phi0 (xi e g (fst ab))) (phi1 (xi e g (fst ab)))
+                                - V (phi0 (xi e g (snd ab))) (phi1 (xi e g (snd ab))))
+     (filter_prod (at_right (-1)) (at_left 1))
+     (locally (V (lo 0%nat) (lo 1%nat) - V (hi 0%nat) (hi 1%nat)))).
 Proof.
-  intros pe e lo hi wid off V dV1 dV2 Hsum Hoff H1 H2 HV C1 C2 k g phi0 phi1 Hw0 Hw1 ca cb HJ.
-  apply is_RInt_ext with
-    (f := fun c =>
-       (dV1 (Phi (lo 0%nat) (hi 0%nat) (wid k 0%nat) (off k 0%nat) (xi e g c))
-            (Phi (lo 1%nat) (hi 1%nat) (wid k 1%nat) (off k 1%nat) (xi e g c))
-        * dPhi (lo 0%nat) (hi 0%nat) (wid k 0%nat) (off k 0%nat) (xi e g c) +
-        dV2 (Phi (lo 0%nat) (hi 0%nat) (wid k 0%nat) (off k 0%nat) (xi e g c))
-            (Phi (lo 1%nat) (hi 1%nat) (wid k 1%nat) (off k 1%nat) (xi e g c))
-        * dPhi (lo 1%nat) (hi 1%nat) (wid k 1%nat) (off k 1%nat) (xi e g c))
-       * (- dzdchi e g c)).
-  { intros c _. symmetry.
-    apply (integrand_2 pe e lo hi wid off dV1 dV2 Hsum Hoff H1 H2 Hw0 Hw1). }
-  unfold phi0, phi1. rewrite !profile_is_Phi.
-  apply (total_derivative_compact_2 V dV1 dV2 HV C1 C2
-           (Phi (lo 0%nat) (hi 0%nat) (wid k 0%nat) (off k 0%nat))
-           (dPhi (lo 0%nat) (hi 0%nat) (wid k 0%nat) (off k 0%nat))
-           (Phi (lo 1%nat) (hi 1%nat) (wid k 1%nat) (off k 1%nat))
-           (dPhi (lo 1%nat) (hi 1%nat) (wid k 1%nat) (off k 1%nat))).
-  - intro z. apply Phi_is_derive. exact Hw0.
-  - intro z. apply Phi_is_derive. exact Hw1.
-  - intro z. apply dPhi_continuous. exact Hw0.
-  - intro z. apply dPhi_continuous. exact Hw1.
-  - intros c Hc. apply HJ. exact Hc.
-  - intros c Hc. apply HJ. exact Hc.
+  intros pe e lo hi wid off V dV1 dV2 Hsum Hinc Hoff H1 H2 HV C1 C2 k g phi0 phi1 Hp0 Hp1.
+  assert (Hw0 : wid k 0%nat <> 0) by lra. assert (Hw1 : wid k 1%nat <> 0) by lra.
+  split.
+  - intros ca cb HJ.
+    apply is_RInt_ext with
+      (f := fun c =>
+         (dV1 (Phi (lo 0%nat) (hi 0%nat) (wid k 0%nat) (off k 0%nat) (xi e g c))
+              (Phi (lo 1%nat) (hi 1%nat) (wid k 1%nat) (off k 1%nat) (xi e g c))
+          * dPhi (lo 0%nat) (hi 0%nat) (wid k 0%nat) (off k 0%nat) (xi e g c) +
+          dV2 (Phi (lo 0%nat) (hi 0%nat) (wid k 0%nat) (off k 0%nat) (xi e g c))
+              (Phi (lo 1%nat) (hi 1%nat) (wid k 1%nat) (off k 1%nat) (xi e g c))
+          * dPhi (lo 1%nat) (hi 1%nat) (wid k 1%nat) (off k 1%nat) (xi e g c))
+         * (- dzdchi e g c)).
+    { intros c _. symmetry.
+      apply (integrand_2 pe e lo hi wid off dV1 dV2 Hsum Hinc Hoff H1 H2 Hw0 Hw1). }
+    unfold phi0, phi1. rewrite !profile_is_Phi.
+    apply (total_derivative_compact_2 V dV1 dV2 HV C1 C2
+             (Phi (lo 0%nat) (hi 0%nat) (wid k 0%nat) (off k 0%nat))
+             (dPhi (lo 0%nat) (hi 0%nat) (wid k 0%nat) (off k 0%nat))
+             (Phi (lo 1%nat) (hi 1%nat) (wid k 1%nat) (off k 1%nat))
+             (dPhi (lo 1%nat) (hi 1%nat) (wid k 1%nat) (off k 1%nat))).
+    + intro z. apply Phi_is_derive. exact Hw0.
+    + intro z. apply Phi_is_derive. exact Hw1.
+    + intro z. apply dPhi_continuous. exact Hw0.
+    + intro z. apply dPhi_continuous. exact Hw1.
+    + intros c Hc. apply HJ. exact Hc.
+    + intros c Hc. apply HJ. exact Hc.
+  - intros Za Zb.
+    refine (endpoint_limit_2 V phi0 phi1 (xi e g) (lo 0%nat) (hi 0%nat) (lo 1%nat) (hi 1%nat)
+              (at_right (-1)) (at_left 1) _ _ _ _ _ _ Za Zb).
+    + eapply differentiable_continuous_2. apply HV.
+    + eapply differentiable_continuous_2. apply HV.
+    + apply prof_limits. exact Hp0.
+    + apply prof_limits. exact Hp0.
+    + apply prof_limits. exact Hp1.
+    + apply prof_limits. exact Hp1.
 Qed.
 Print Assumptions code_pressure_integrand_two_fields.
 
@@ -464,18 +521,46 @@ Proof.
 Qed.
 Print Assumptions grid_remap_resolves_the_wall.
 
-(** non-vacuity: the hypotheses on the collaborators are satisfiable (one field, V = x^2,
-    identity-like grid map on a stretch) *)
+(** non-vacuity: ALL hypotheses of [code_pressure_integrand_one_field], including the
+    Jacobian on every stretch inside (-1,1) and the two limits of the grid map at chi = -1, +1,
+    hold for a concrete collaborator record (V = x^2, one field, grid map
+    z = 1/(1-chi) - 1/(1+chi) of Lib.WallProfile) *)
 Example hypotheses_satisfiable :
-  let e := mk_penv (fun F _ _ => 2 * F 0%nat) (fun _ _ _ => 0) (fun f => f 0%nat)
-                   (fun _ c => 3 * c) (fun _ _ => 3) (fun _ => 1) in
-  (forall f, fieldSum e f = f 0%nat) /\ (forall F c i, offEq e F c i = 0) /\
+  let e := mk_penv (fun F _ _ => 2 * F 0%nat) false (fun _ _ _ _ => 0) (fun f => f 0%nat)
+                   (fun _ => zmapW) (fun _ => JW) (fun _ => 1) in
+  (forall f, fieldSum e f = f 0%nat) /\ includeOffEq e = false /\
+  (forall F c i, offEq e incoming_boltzmann_version F c i = 0) /\
   (forall F c, dVdPhi e F (Tprof e c) 0%nat = 2 * F 0%nat) /\
-  (forall x, is_derive (fun x => x ^ 2) x (2 * x)) /\
-  (forall g c, is_derive (xi e g) c (dzdchi e g c) /\ continuous (dzdchi e g) c).
+  (forall x, is_derive (fun x => x ^ 2) x (2 * x)) /\ (forall x, continuous (fun x => 2 * x) x) /\
+  (forall g ca cb, -1 < Rmin ca cb -> Rmax ca cb < 1 ->
+     forall c, Rmin ca cb <= c <= Rmax ca cb ->
+     is_derive (xi e g) c (dzdchi e g c) /\ continuous (dzdchi e g) c) /\
+  (forall g, filterlim (xi e g) (at_right (-1)) (Rbar_locally m_infty)) /\
+  (forall g, filterlim (xi e g) (at_left 1) (Rbar_locally p_infty)).
 Proof.
-  cbn. split; [intros; reflexivity|]. split; [intros; reflexivity|].
-  split; [intros; reflexivity|]. split.
+  cbn. split; [intros; reflexivity|]. split; [reflexivity|]. split; [intros; reflexivity|].
+  split; [intros; reflexivity|]. split; [|split; [|split; [|split]]].
   - intro x. auto_derive; [exact I|ring].
-  - intros g c. split; [auto_derive; [exact I|ring]|apply continuous_const].
+  - intro x. apply edc. auto_derive. exact I.
+  - intros g ca cb Ha Hb c Hc. split; [apply zmapW_is_derive|apply JW_continuous]; lra.
+  - intros g. apply zmapW_lim_m.
+  - intros g. apply zmapW_lim_p.
+Qed.
+
+(** ... and for two fields: V(x,y) = x*y is differentiable with continuous gradient (y, x) *)
+Example two_field_hypotheses_satisfiable :
+  (forall x y, differentiable_pt_lim (fun x y => x * y) x y y x) /\
+  (forall x y, continuous (fun p : R * R => snd p) (x, y)) /\
+  (forall x y, continuous (fun p : R * R => fst p) (x, y)).
+Proof.
+  split; [|split].
+  - intros x y eps. exists eps. intros u v Hu Hv.
+    replace (u * v - x * y - (y * (u - x) + x * (v - y))) with ((u - x) * (v - y)) by ring.
+    rewrite Rabs_mult.
+    assert (H1 : Rabs (u - x) <= Rmax (Rabs (u - x)) (Rabs (v - y))) by apply Rmax_l.
+    assert (H2 : Rabs (v - y) <= Rmax (Rabs (u - x)) (Rabs (v - y))) by apply Rmax_r.
+    assert (H0 := Rabs_pos (u - x)). assert (H0' := Rabs_pos (v - y)).
+    destruct eps as [e0 He]; cbn in *. nra.
+  - intros x y. apply continuous_snd.
+  - intros x y. apply continuous_fst.
 Qed.
